@@ -110,10 +110,12 @@ func (m *Manager) wipeoutKey(ctx context.Context, keyName string) error {
 				&kmspb.DestroyCryptoKeyVersionRequest{Name: kver.GetName()})
 			result = multierr.Append(result, err)
 		}
-		if len(resp.GetCryptoKeyVersions()) < keyPageSize {
+		// The listing is complete when the service returns no next-page token. A page may be full (or
+		// legally short) without being the last one, so its length says nothing.
+		pageToken = resp.GetNextPageToken()
+		if pageToken == "" {
 			break
 		}
-		pageToken = resp.GetNextPageToken()
 	}
 	return result
 }
@@ -132,10 +134,10 @@ func (m *Manager) Wipeout(ctx context.Context) error {
 		for _, key := range resp.GetCryptoKeys() {
 			result = multierr.Append(result, m.wipeoutKey(ctx, key.GetName()))
 		}
-		if len(resp.GetCryptoKeys()) < keyPageSize {
+		pageToken = resp.GetNextPageToken()
+		if pageToken == "" {
 			break
 		}
-		pageToken = resp.GetNextPageToken()
 	}
 	return result
 }
